@@ -4,6 +4,7 @@
 package staterig
 
 import (
+	"bytes"
 	"fmt"
 	"math/big"
 	"sort"
@@ -13,6 +14,7 @@ import (
 	"github.com/lianxiangcloud/linkchain/libs/common"
 	"github.com/lianxiangcloud/linkchain/libs/crypto"
 	"github.com/lianxiangcloud/linkchain/libs/log"
+	"github.com/lianxiangcloud/linkchain/libs/trie"
 
 	"verif/sim/kernel"
 )
@@ -37,6 +39,7 @@ func init() {
 			"credits is a learned observable: its value after an operation is taken from the target state; only restoration by revert, inheritance by Copy and non-interference are demanded",
 			"three usage patterns outside what the application and upstream do are confined to ~1/5 of the runs each and reported under their own keys: CreateAccount over an existing account untouched since the last finalisation (hazard/createaccount-over-untouched-account), IntermediateRoot/Finalise on a Copy of a state with unfinalised changes (hazard/copy-of-unfinalised-state-finalised), revert of the first write of a token key / of a Suicide with zero-valued token entries (twinroot/tokens-zero-entry); in the other runs the generator avoids them",
 			"when a listed known finding is hit, the state that no longer follows its model is retired and the run continues with the remaining live states",
+			"a root difference whose identified only cause is a storage leaf holding the empty string (what SetState with an all-zero, non-empty value writes) present on one side and absent on the other is reported under twinroot/storage-zero-leaf; the root of the Commit that ends a hazard is still keyed by that hazard",
 		},
 		QuickRuns: 30000, QuickBudget: 55 * time.Second,
 		ThoroughRuns: 600000, ThoroughBudget: 14 * time.Minute,
@@ -516,6 +519,9 @@ func run(c *kernel.Ctx) {
 
 		var root common.Hash
 		var xerr error
+		// the hazards in effect while the operation ran: a Commit ends them for
+		// what follows, but its own root is still a product of them
+		opTaint := l.taint
 		if out := r.try(l, opNames[k], func() { root, xerr = u.exec(l.in, o) }); out != ok {
 			return out == stopRun
 		}
@@ -565,14 +571,22 @@ func run(c *kernel.Ctx) {
 
 		if needTwin && root != twinRoot {
 			d := r.diagnose(l.in, twin)
-			key := l.taint.key("twinroot/" + opNames[k] + "/" + modeNames[u.mode] + "/" + d)
+			key := opTaint.key("twinroot/" + opNames[k] + "/" + modeNames[u.mode] + "/" + d)
 			if strings.Contains(d, "tokens") {
-				key = l.taint.tokenKey(key)
+				key = opTaint.tokenKey(key)
 			}
 			if d == "tokens-zero-entry" {
 				// cause identified: the only difference is a zero-valued entry
 				// left in (or lost from) Account.Tokens by a revert
 				key = "twinroot/tokens-zero-entry"
+			}
+			if d == "storage-zero-leaf" {
+				// cause identified: the accounts agree in everything but the storage
+				// root, and the storage tries differ only in leaves that read as
+				// "unset" on both sides (the empty-string leaf a write of an
+				// all-zero, non-empty value leaves behind)
+				key = opTaint.key("twinroot/storage-zero-leaf")
+				c.Probe("storage-zero-leaf-difference")
 			}
 			if c.Violate("twin-root", key, "%s.%s = %x but a twin that applied only the %d net operations of this lineage (no snapshots, reverts or copies) on a fresh db gets %x; mode=%s deleteEmpty=%v",
 				l.label, opNames[k], root, len(l.hist), twinRoot, modeNames[u.mode], u.delEmp) {
@@ -763,10 +777,85 @@ func (r *runner) diagnose(a, b *inst) string {
 	if len(diff) == 0 {
 		return "none"
 	}
+	if len(diff) == 1 && diff["storageroot"] && r.u.mode != modeKV && r.zeroLeafOnly(a, b) {
+		return "storage-zero-leaf"
+	}
 	ks := make([]string, 0, len(diff))
 	for k := range diff {
 		ks = append(ks, k)
 	}
 	sort.Strings(ks)
 	return strings.Join(ks, "+")
+}
+
+// zeroLeafOnly reports whether the storage tries of the two states differ only
+// by leaves that exist on one side, belong to a slot of the universe, and read
+// as "unset" through GetState on BOTH sides. Such a leaf holds the empty
+// string: SetState with an all-zero, non-empty value writes it instead of
+// deleting the slot. Anything else (a leaf with different contents on the two
+// sides, a leaf of an unknown key, a slot that reads as set) answers false.
+func (r *runner) zeroLeafOnly(a, b *inst) bool {
+	slotOf := map[common.Hash]int{}
+	for i, s := range r.u.slots {
+		slotOf[crypto.Keccak256Hash(s[:])] = i
+	}
+	found := false
+	for _, ad := range r.u.addrs {
+		x, y := a.sdb.GetAccount(ad), b.sdb.GetAccount(ad)
+		if x == nil || y == nil || x.Root == y.Root {
+			continue
+		}
+		la, oka := storageLeaves(a, ad)
+		lb, okb := storageLeaves(b, ad)
+		if !oka || !okb {
+			return false
+		}
+		unset := func(k common.Hash) bool {
+			si, known := slotOf[k]
+			return known && len(normVal(a.sdb.GetState(ad, r.u.slots[si]))) == 0 && len(normVal(b.sdb.GetState(ad, r.u.slots[si]))) == 0
+		}
+		for k, v := range la {
+			if w, both := lb[k]; both {
+				if !bytes.Equal(v, w) {
+					return false
+				}
+				continue
+			}
+			if !unset(k) {
+				return false
+			}
+			found = true
+		}
+		for k := range lb {
+			if _, both := la[k]; both {
+				continue
+			}
+			if !unset(k) {
+				return false
+			}
+			found = true
+		}
+	}
+	return found
+}
+
+// storageLeaves lists the leaves (hashed key -> raw value) of an account's
+// storage trie; false where the storage mode has no iterable trie.
+func storageLeaves(in *inst, ad common.Address) (m map[common.Hash][]byte, listed bool) {
+	_, _, p := kernel.Try(func() {
+		tr := in.sdb.StorageTrie(ad)
+		if tr == nil {
+			return
+		}
+		ni := tr.NodeIterator(nil)
+		if ni == nil {
+			return
+		}
+		m = map[common.Hash][]byte{}
+		for it := trie.NewIterator(ni); it.Next(); {
+			m[common.BytesToHash(it.Key)] = append([]byte(nil), it.Value...)
+		}
+		listed = true
+	})
+	return m, listed && !p
 }
